@@ -10,19 +10,19 @@ import (
 )
 
 type verifCfgShape struct {
-	hasApi, hasPool   bool
-	min, max, wm      uint32
-	fallback          bool
-	calls, ms         uint32
-	strategy          pb.ChannelPoolConfig_BindPickStrategy
-	idle              uint64
-	nMethods          int
-	nNames            [2]int
-	namesNil          [2]bool
-	names             [2][2]string
-	hasAff            [2]bool
-	cmd               [2]pb.AffinityConfig_Command
-	keyPath           [2]string
+	hasApi, hasPool bool
+	min, max, wm    uint32
+	fallback        bool
+	calls, ms       uint32
+	strategy        pb.ChannelPoolConfig_BindPickStrategy
+	idle            uint64
+	nMethods        int
+	nNames          [2]int
+	namesNil        [2]bool
+	names           [2][2]string
+	hasAff          [2]bool
+	cmd             [2]pb.AffinityConfig_Command
+	keyPath         [2]string
 }
 
 func verifMkCfgShape(tag string) *verifCfgShape {
